@@ -409,6 +409,11 @@ def content_fault(data: bytes, spec) -> bytes:
         return b""
     if kind == "short":
         return data[: max(0, min(len(data), int(spec["at"])))]
+    if kind == "cutlines":
+        # a transfer that stopped on a line boundary (still parseable)
+        lines = data.split(b"\n")
+        keep = max(1, int(len(lines) * float(spec.get("frac", 0.5))))
+        return b"\n".join(lines[:keep]) + b"\n"
     if kind == "garble":
         at = int(spec["at"]) % max(1, len(data))
         b = bytearray(data)
